@@ -223,6 +223,16 @@ class SymNP:
     def log(self, x):
         return self._elementwise(x, "log", _np.log)
 
+    def log1p(self, x):
+        if isinstance(x, (SymReal, SymComplex)) or (isinstance(x, _np.ndarray) and x.dtype == object):
+            return self.log(x + 1)  # exact arithmetic: log1p(x) = log(1 + x)
+        return _np.log1p(x)
+
+    def expm1(self, x):
+        if isinstance(x, (SymReal, SymComplex)) or (isinstance(x, _np.ndarray) and x.dtype == object):
+            return self.exp(x) - 1
+        return _np.expm1(x)
+
     def sqrt(self, x):
         return self._elementwise(x, "sqrt", _np.sqrt)
 
@@ -351,6 +361,91 @@ def install_numeric_shims(p: Patcher, facade: SymNP | None = None, modules=NP_MO
     return facade
 
 
+class AdvSet:
+    """Stand-in for the builtin ``set`` inside the modules under analysis: its *iteration order* is arbitrary (a finite symbolic
+    choice over the permutations of its elements, at most 4 elements), as the order of a real set of strings is across processes
+    with different hash seeds.  Code whose result depends on that order forks into the orders."""
+
+    def __init__(self, iterable=()):
+        self._items = []
+        for x in iterable:
+            if x not in self._items:
+                self._items.append(x)
+
+    def __iter__(self):
+        import itertools
+
+        items = list(self._items)
+        ctx = core.Ctx.cur
+        if ctx is not None and 1 < len(items) <= 4:
+            perms = list(itertools.permutations(range(len(items))))
+            k = ctx.choose(len(perms), "set_iteration_order")
+            items = [items[i] for i in perms[k]]
+        return iter(items)
+
+    def __len__(self):
+        return len(self._items)
+
+    def __contains__(self, x):
+        return x in self._items
+
+    def __bool__(self):
+        return bool(self._items)
+
+    def __eq__(self, other):
+        return isinstance(other, (AdvSet, set, frozenset)) and len(other) == len(self._items) and all(x in other for x in self._items)
+
+    __hash__ = None
+
+    def add(self, x):
+        if x not in self._items:
+            self._items.append(x)
+
+    def discard(self, x):
+        if x in self._items:
+            self._items.remove(x)
+
+    def update(self, *others):
+        for o in others:
+            for x in (o._items if isinstance(o, AdvSet) else o):
+                self.add(x)
+
+    def difference(self, *others):
+        drop = [x for o in others for x in (o._items if isinstance(o, AdvSet) else o)]
+        return AdvSet(x for x in self._items if x not in drop)
+
+    def union(self, *others):
+        r = AdvSet(self._items)
+        r.update(*others)
+        return r
+
+    def intersection(self, *others):
+        return AdvSet(x for x in self._items if all(x in (o._items if isinstance(o, AdvSet) else o) for o in others))
+
+    def issubset(self, other):
+        return all(x in other for x in self._items)
+
+    def __sub__(self, other):
+        return self.difference(other)
+
+    def __or__(self, other):
+        return self.union(other)
+
+    def __and__(self, other):
+        return self.intersection(other)
+
+    def __repr__(self):
+        return f"AdvSet({self._items!r})"
+
+
+def install_set_shims(p: Patcher, modules):
+    """Shadow the builtin ``set`` in the given modules by AdvSet (only effective where the module calls ``set(...)``)."""
+    for m in modules:
+        mod = importlib.import_module(m)
+        if "set" not in mod.__dict__:
+            p.set(mod, "set", AdvSet, "builtin set -> set with arbitrary iteration order (hash-seed independence)")
+
+
 class _ValidatorSlot:
     def __init__(self, v):
         self.v = v
@@ -362,4 +457,4 @@ class _ValidatorSlot:
             object.__setattr__(self.v, k, val)
 
 
-__all__ = ["SymNP", "Patcher", "install_numeric_shims", "sym_float", "sym_isinstance", "has_sym", "SymBool", "z3"]
+__all__ = ["SymNP", "Patcher", "install_numeric_shims", "install_set_shims", "AdvSet", "sym_float", "sym_isinstance", "has_sym", "SymBool", "z3"]
